@@ -51,10 +51,17 @@ AnalyticOK(e) ==
            [] e.fn = "cume_dist"    -> got.num * n = CumeNum(e.rows, ord, p, e.keys) * got.den
            [] e.fn = "percent_rank" -> IF n = 1 THEN got.num = 0 ELSE got.num * (n - 1) = (RankAt(e.rows, ord, p, e.keys) - 1) * got.den
            [] e.fn = "ntile"        -> got.i = NtileAt(n, e.arg, p)
-           [] e.fn = "lag"          -> got.t = (IF p - e.arg >= 1 THEN TextOf(e.rows[ord[p - e.arg]][e.col]) ELSE "NULL")
-           [] e.fn = "lead"         -> got.t = (IF p + e.arg <= n THEN TextOf(e.rows[ord[p + e.arg]][e.col]) ELSE "NULL")
+           [] e.fn = "lag" /\ ~e.ign  -> got.t = (IF p - e.arg >= 1 THEN TextOf(e.rows[ord[p - e.arg]][e.col]) ELSE "NULL")
+           [] e.fn = "lead" /\ ~e.ign -> got.t = (IF p + e.arg <= n THEN TextOf(e.rows[ord[p + e.arg]][e.col]) ELSE "NULL")
+           \* IGNORE NULLS (offset 1): the nearest earlier / later row of the partition whose value is not NULL
+           [] e.fn = "lag" /\ e.ign   -> LET qs == {q \in 1..(p - 1) : ~e.rows[ord[q]][e.col].n} IN
+                                         got.t = (IF qs = {} THEN "NULL" ELSE TextOf(e.rows[ord[CHOOSE q \in qs : \A q2 \in qs : q2 <= q]][e.col]))
+           [] e.fn = "lead" /\ e.ign  -> LET qs == {q \in (p + 1)..n : ~e.rows[ord[q]][e.col].n} IN
+                                         got.t = (IF qs = {} THEN "NULL" ELSE TextOf(e.rows[ord[CHOOSE q \in qs : \A q2 \in qs : q2 >= q]][e.col]))
            [] e.fn \in {"first_value", "last_value", "nth_value", "count", "sum", "min", "max"} ->
-                LET cs == FrameCells(e.rows, ord, p, e.lo, e.hi, e.col) IN
+                LET all == FrameCells(e.rows, ord, p, e.lo, e.hi, e.col)
+                    \* IGNORE NULLS: the function sees the frame without its NULL values
+                    cs == IF e.ign THEN SelectSeq(all, LAMBDA c : ~c.n) ELSE all IN
                 CASE e.fn = "first_value" -> got.t = (IF cs = <<>> THEN "NULL" ELSE TextOf(cs[1]))
                   [] e.fn = "last_value"  -> got.t = (IF cs = <<>> THEN "NULL" ELSE TextOf(cs[Len(cs)]))
                   [] e.fn = "nth_value"   -> got.t = (IF Len(cs) < e.arg THEN "NULL" ELSE TextOf(cs[e.arg]))
